@@ -101,6 +101,10 @@ Tick == /\ ~crashed /\ txopen /\ ~aged /\ aged' = TRUE
         /\ UNCHANGED <<durable, work, dheads, wheads, txopen, pending, boundary, acked, ncalls, crashed>>
 
 \* flush / snapshot read between two calls
+\* Flush stands for every point at which the code commits on request: Store::flush, the store actor's flush_store and
+\* idle-timer flush, a snapshot read, and the commit the actor makes in its shutdown path before it hands the store back
+\* (the last one is logged by the actor drive as a step of kind "Flush": the image is taken right after
+\* SyncHandle::shutdown() returned, with the returned store still held)
 Flush == /\ ~crashed /\ pending = <<>> /\ txopen
          /\ durable' = work /\ dheads' = wheads /\ txopen' = FALSE /\ aged' = FALSE /\ boundary' = {acked}
          /\ UNCHANGED <<work, wheads, pending, acked, ncalls, crashed>>
